@@ -124,7 +124,10 @@ def checkMod (st : St) (site : String) (i : Nat) (o : ModObs) (last : Bool) : Ve
   let rowBad := (List.range st.w).any (fun k => !(xClose (o.row.getD k .nan) (nthQ p.row k)))
   let v := v.diffIf rowBad s!"{comp} row pair={i} model={p.row.map ratStr} impl={o.row.map showX}"
   let v := v.diffIf (!(xClose o.rew p.rew)) s!"{comp} reward pair={i} model={ratStr p.rew} impl={showX o.rew}"
-  if st.taint.getD i false then v else
+  if st.taint.getD i false then
+    -- outside the precondition the C++ may divide by zero (NaN/inf rows); the rational model has no such value
+    (if o.row.all xFin then v else { v with tag := "SKIP" })
+  else
   if g.snap.isEmpty then
     -- never synced with data: the fixed valid default
     let bad := (List.range st.w).any (fun k => !(xClose (o.row.getD k .nan) (specRow st.w p.dfl g k)))
@@ -230,7 +233,8 @@ def hist : P String := do
     P.eof
     let tag := vname ++ (if st.nPreViol > 0 then " nopre" else " pre") ++ (if nops ≤ 2 then " trivial" else "")
               ++ (if st.nInc > 0 then " inc" else "") ++ (if st.everReset then " reset" else "")
-    pure ({ st.verdict with tag := tag }).render
+    if st.verdict.tag == "SKIP" && st.verdict.fails.isEmpty then pure "skip nonfinite_row_outside_precondition"
+    else pure ({ st.verdict with tag := tag }).render
 
 /-- exposed distribution of a posterior-sampling model: rows valid, rewards finite, MLE reward below two visits -/
 def thompson : P String := do
